@@ -24,6 +24,9 @@ type Job struct {
 	Merge     []string // merge-mode functions
 	Sites     []string // known-finding site predicates excused in the strict run
 	Excuses   []string // vKnown keys excused in the strict run
+	KnownOnly bool     // only the non-strict run (detects that a listed known finding is still live)
+	NoLive    bool     // only the strict run (the live check is done by a smaller job)
+	Summaries []string // function summaries used in the strict run (each backed by a lemma job)
 	MaxSteps  int
 	MaxLoop   int
 	MaxPaths  int
@@ -169,6 +172,12 @@ func cmdCheck(args []string) int {
 		if len(job.Sites) > 0 || len(job.Excuses) > 0 {
 			runs = []bool{true, false}
 		}
+		if job.KnownOnly {
+			runs = []bool{false}
+		}
+		if job.NoLive {
+			runs = []bool{true}
+		}
 		for _, strict := range runs {
 			cfg := &exec.Config{MaxSteps: job.MaxSteps, MaxLoopIter: job.MaxLoop, SampleModel: true,
 				MergeFuncs: map[string]bool{}, Args: job.Args, Excuse: map[string]bool{}}
@@ -183,9 +192,17 @@ func cmdCheck(args []string) int {
 			}
 			if strict {
 				cfg.SiteAssume = exec.SiteAssumeFor(job.Sites)
+				cfg.Summaries = exec.SummariesFor(job.Summaries)
+				if len(job.Summaries) > 0 {
+					cfg.MergeFuncs = map[string]bool{}
+				}
 				for _, e := range job.Excuses {
 					cfg.Excuse[e] = true
 				}
+			}
+			if !strict && len(job.Merge) == 0 {
+				// live check without a real-code alternative: summaries stay
+				cfg.Summaries = exec.SummariesFor(job.Summaries)
 			}
 			to := job.TimeoutMs
 			if to == 0 {
@@ -196,7 +213,7 @@ func cmdCheck(args []string) int {
 				fmt.Fprintln(os.Stderr, "explore:", err)
 				return 2
 			}
-			rep := jobReport{Name: jobName(job), Bounds: job.Bounds, Strict: strict && len(runs) == 2, Paths: st.Paths, ByStatus: st.ByStatus,
+			rep := jobReport{Name: jobName(job), Bounds: job.Bounds, Strict: strict && (len(job.Sites) > 0 || len(job.Excuses) > 0), Paths: st.Paths, ByStatus: st.ByStatus,
 				Obligations: map[string]int{}, Queries: st.Queries, SolverS: st.SolverTime.Seconds(), WallS: st.Wall.Seconds(),
 				Truncated: st.Truncated, Sites: job.Sites}
 			covers := map[string]bool{}
